@@ -556,7 +556,7 @@ SW_F = (0.9, 0.999, 1.001, 1.1, -0.9, -0.999, -1.001, -1.1)
 SW_SC = (1.0, -1.0, 2.0, -3.0, 0.5, -0.25, 1 / 3, 1 / 1024, 1000.0)
 SW_T = (0.0, 10.0, -7.0, 0.5, 5e5, -6e6, 1e15)
 SW_BASE = ((1.0, 0.0, 0.0, 0.0, 1.0, 0.0), (2.0, 0.0, 10.0, 0.0, -0.5, -7.0), (1 / 3, 0.0, 5e5, 0.0, -30.0, 6e6 + 0.3))
-AFFINE_ST_TOL = 1e-10  # documented default of is_affine_st
+AFFINE_ST_TOL = 1e-10  # default of is_affine_st; relative to the pixel size: |w| <= tol * max(|sx|, |sy|)
 
 
 def gen_sw():
@@ -572,18 +572,20 @@ def gen_sw():
                     for v in SW_T:
                         for rd in ("add", "mul"):
                             yield (ti, bi, comp, v, f, ttol, rd)
-                for comp in (1, 3):  # wx, wy: windows of snap_affine's tol and of is_affine_st's default
+                for comp in (1, 3):  # wx, wy: windows of snap_affine's tol (absolute) and of is_affine_st (relative to pixel size)
                     for wt in (tol, AFFINE_ST_TOL):
-                        for other in (0.0, 0.5 * wt, 2 * wt):
-                            yield (ti, bi, comp, other, f, wt, "add")
+                        for other in (0.0, 0.5, 2.0):  # the other off-diagonal entry, in units of the same window
+                            for rd in ("add", "rel"):
+                                yield (ti, bi, comp, other, f, wt, rd)
 
 
 def run_sw(case):
     ti, bi, comp, v, f, t, rd = case
     a = list(SW_BASE[bi])
     if comp in (1, 3):
-        a[comp] = f * t
-        a[4 - comp] = v  # the other off-diagonal entry
+        unit = t * (max(abs(a[0]), abs(a[4])) if rd == "rel" else 1.0)
+        a[comp] = f * unit
+        a[4 - comp] = v * unit  # the other off-diagonal entry
     elif rd == "add":
         a[comp] = v + f * t
     elif rd == "mul":
@@ -593,16 +595,24 @@ def run_sw(case):
     r = R(outcome="st")
     _judge_sa(r, tuple(a), ti)
     r.outcome = f"{('sx', 'wx', 'tx', 'wy', 'sy', 'ty')[comp]}:{rd}:{'in' if abs(f) < 1 else 'out'}:" + r.outcome
-    # is_affine_st: exactly "both off-diagonal entries strictly below tol"
+    # is_affine_st: both off-diagonal entries within tol * pixel size (relative tolerance); at the boundary itself
+    # (within 1e-9 of it, where the rounding of tol * size decides) either answer is accepted
     A = Affine(*a)
     for tol_ in (None, SA_TOLS[ti][2]):
         got = M.is_affine_st(A) if tol_ is None else M.is_affine_st(A, tol_)
-        tt = Fr(AFFINE_ST_TOL if tol_ is None else tol_)
-        want = abs(Fr(a[1])) < tt and abs(Fr(a[3])) < tt
+        tt = Fr(AFFINE_ST_TOL if tol_ is None else tol_) * max(abs(Fr(a[0])), abs(Fr(a[4])))
+        w = max(abs(Fr(a[1])), abs(Fr(a[3])))
+        if w <= tt * (1 - REL):
+            want = True
+        elif w > tt * (1 + REL):
+            want = False
+        else:
+            continue
         if bool(got) != want:
-            which = "wx" if abs(Fr(a[1])) >= tt else "wy"
-            r.fail(f"is_affine_st:{'false-positive:' + which if got else 'false-negative'}",
-                   f"is_affine_st({tuple(a)!r}, tol={'default' if tol_ is None else tol_}) -> {got}")
+            which = "wx" if abs(Fr(a[1])) > tt else "wy"
+            r.fail(f"is_affine_st:{'false-positive:' + which if got else 'false-negative'}:{rd}",
+                   f"is_affine_st({tuple(a)!r}, tol={'default' if tol_ is None else tol_}) -> {got}; "
+                   f"largest off-diagonal entry is {float(w / tt) if tt else math.inf!r} x (tol * pixel size)")
     return r
 
 
@@ -643,7 +653,10 @@ def run_rws(case):
     det = a * d - b * c
     scale = float(np.abs(A).max())
     tol = RWS_TOL * scale
-    st = abs(b) < 1e-10 and abs(c) < 1e-10
+    # is_affine_st decides which path resolution_from_affine takes: |w| <= 1e-10 * pixel size
+    st_t = AFFINE_ST_TOL * max(abs(a), abs(d))
+    st = max(abs(b), abs(c)) <= st_t
+    st_boundary = st_t * 0.999 < max(abs(b), abs(c)) <= st_t * 1.001 and st_t > 0
     cls = f"{kind}:{'affine' if as_affine else 'ndarray'}:det-{sgn(det)}:{'st' if st else 'rot'}"
     r = R(outcome=cls)
     what = f"decompose_rws({'Affine' if as_affine else 'array'}[[{a!r},{b!r}],[{c!r},{d!r}]])"
@@ -699,7 +712,9 @@ def run_rws(case):
         r.fail(f"decompose_rws:S-values:{cls}", what + f": S={Sm_.tolist()!r}, |col0|={n0!r}, det={det!r}")
     # resolution_from_affine
     res = M.resolution_from_affine(Affine(a, b, 3.0, c, d, 4.0))
-    if st:
+    if st_boundary:
+        pass  # either path
+    elif st:
         if (res.x, res.y) != (a, d):
             r.fail("resolution_from_affine:axis-aligned", f"resolution_from_affine([[{a},{b}],[{c},{d}]]) -> {res}")
     else:
@@ -1018,15 +1033,18 @@ def run_p2(case):
                 if not ok:
                     break
             # grid2d is only defined for axis-aligned chains: it must refuse (raise) anything else, never answer wrongly
-            gx, gy = np.array([q[0] for q in qs[:3]]), np.array([q[1] for q in qs[:2]])
+            # (equally long axes: a sheared chain must not be answered point-wise by accident of broadcasting)
+            gx, gy = np.array([q[0] for q in qs[:3]]), np.array([q[1] for q in qs[1:4]])
             try:
                 gg = p2.grid2d(gx, gy)
             except Exception:  # pylint: disable=broad-except
                 gg = None
                 if aligned:
                     r.fail(f"Poly2d.grid2d:refused-axis-aligned:{name}{chain}", what + f": grid2d raised for input transform {t6!r}")
-            if gg is not None and ok:
-                for i, j in itertools.product(range(3), range(2)):
+            if gg is not None and gg.shape != (2, 3, 3):
+                r.fail(f"Poly2d.grid2d:shape:{name}{chain}", what + f": grid2d shape {gg.shape}")
+            elif gg is not None and ok:
+                for i, j in itertools.product(range(3), range(3)):
                     fx = Fr(Tf.a) * Fr(gx[i]) + Fr(Tf.b) * Fr(gy[j]) + Fr(Tf.c)
                     fy = Fr(Tf.d) * Fr(gx[i]) + Fr(Tf.e) * Fr(gy[j]) + Fr(Tf.f)
                     key = f"Poly2d.grid2d:{'axis-aligned-chain' if aligned else 'not-axis-aligned-accepted'}:{name}{chain}"
